@@ -47,7 +47,7 @@ Inductive step_result : Type :=
 | Return (f : cell_format).
 
 (* character classes named in the match arms *)
-Definition is_esc (s : N) : bool := mem s [95; 92].                        (* '_' | '\\' *)
+Definition is_esc (s : N) : bool := mem s [95; 92; 42].                    (* '_' | '\\' | '*' *)
 Definition is_a (s : N) : bool := mem s [97; 65].                          (* 'a' | 'A' *)
 Definition is_pm_slash (s : N) : bool := mem s [112; 109; 47; 80; 77].     (* 'p'|'m'|'/'|'P'|'M' *)
 Definition is_date_letter (s : N) : bool :=
@@ -55,17 +55,17 @@ Definition is_date_letter (s : N) : bool :=
 Definition is_mhs (s : N) : bool := mem s [109; 104; 115; 77; 72; 83].     (* m h s M H S *)
 
 (* One iteration of `for s in format.chars()`: the match on (s, escaped, is_quote, ap, brackets)
-   with the arms in source order, followed by `prev = s`. *)
+   with the arms in source order (as of commits ac433ce, c5a918f, a61713f), then `prev = s`. *)
 Definition step (q : st) (s : N) : step_result :=
   let '(mkSt e iq b p h a) := q in
   (* (_, true, ..) => escaped = false *)
   if e then Continue (mkSt false iq b s h a)
-  (* ('_' | '\\', ..) => escaped = true *)
-  else if is_esc s then Continue (mkSt true iq b s h a)
   (* (DQUOTE, _, true, _, _) => is_quote = false *)
   else if (s =? 34) && iq then Continue (mkSt e false b s h a)
-  (* (_, _, true, _, _) => () *)
+  (* (_, _, true, _, _) => ()      inside a quoted literal nothing is special *)
   else if iq then Continue (mkSt e iq b s h a)
+  (* ('_' | '\\' | '*', ..) => escaped = true *)
+  else if is_esc s then Continue (mkSt true iq b s h a)
   (* (DQUOTE, _, _, _, _) => is_quote = true *)
   else if s =? 34 then Continue (mkSt e true b s h a)
   (* (';', ..) => return Other *)
@@ -82,10 +82,11 @@ Definition step (q : st) (s : N) : step_result :=
   else if is_pm_slash s && a && (b =? 0) then Return DateTime
   (* ('d' | 'm' | 'h' | 'y' | 's' | 'D' | 'M' | 'H' | 'Y' | 'S', _, _, false, 0) => return DateTime *)
   else if is_date_letter s && negb a && (b =? 0) then Return DateTime
-  (* _ => if hms && s.eq_ignore_ascii_case(&prev) {} else { hms = prev == '[' && matches!(s, m h s M H S) } *)
+  (* _ => { ap = false;
+            if hms && s.eq_ignore_ascii_case(&prev) {} else { hms = prev == '[' && matches!(s, m h s M H S) } } *)
   else
     let h' := if h && eq_ignore_ascii_case s p then h else (p =? 91) && is_mhs s in
-    Continue (mkSt e iq b s h' a).
+    Continue (mkSt e iq b s h' false).
 
 (* the loop with its early returns *)
 Fixpoint run (q : st) (l : list N) : step_result :=
@@ -190,7 +191,9 @@ Fixpoint assoc_last {K V : Type} (keq : K -> K -> bool) (k : K) (l : list (K * V
   end.
 
 (* --- xlsx: Xlsx::read_styles.  numFmts: (raw bytes of numFmtId, formatCode) in document order;
-   cellXfs: the raw bytes of each xf's numFmtId attribute, None when the attribute is absent. *)
+   cellXfs: the raw bytes of each xf's numFmtId attribute, None when the attribute is absent.
+   formatCode is the attribute value after quick-xml's decode_and_unescape_value (commit 35d58d0);
+   XML parsing itself, including entity unescaping, is not modelled. *)
 Record xlsx_styles : Type := mkXlsxStyles {
   xs_numfmts : list (list N * list N);
   xs_cellxfs : list (option (list N))
@@ -212,13 +215,13 @@ Definition xlsx_read_styles (s : xlsx_styles) : list cell_format :=
          end) (xs_cellxfs s).
 
 (* read_v, numeric arms (t="n" or no t): the `s` attribute already parsed to an index
-   (atoi_simd, 0 on failure); None = no `s` attribute => Some(&CellFormat::Other) *)
+   (atoi_simd, 0 on failure); None = no `s` attribute => formats.first(), the default style *)
 Definition xlsx_cell_number (formats : list cell_format) (is_1904 : bool)
            (s_attr : option N) (bits : N) : data :=
   let cell_format :=
       match s_attr with
       | Some id => nth_error formats (N.to_nat id)
-      | None => Some Other
+      | None => nth_error formats 0
       end in
   format_excel_f64_ref bits cell_format is_1904.
 
@@ -248,9 +251,10 @@ Definition xls_cell_number (formats : list cell_format) (is_1904 : bool) (ixfe :
   | NI z => format_excel_i64 z format is_1904
   end.
 
-(* the FORMULA arm: parse_formula_value's `_ => Data::Float(read_f64(r))` — no style lookup *)
+(* the FORMULA arm (commit aa1af82): a numeric cached value goes through
+   format_excel_f64(f, self.formats.get(ixfe), self.is_1904) like a NUMBER cell *)
 Definition xls_formula_number (formats : list cell_format) (is_1904 : bool) (ixfe : N) (bits : N) : data :=
-  DFloat bits.
+  format_excel_f64_ref bits (nth_error formats (N.to_nat ixfe)) is_1904.
 
 (* --- xlsb: Xlsb::read_styles.  BrtFmt (ifmt, string), BrtXF (ifmt): built-in table first, the
    custom map only when the built-in answer is Other. *)
@@ -430,7 +434,7 @@ Definition lit_chars : list N :=
   [36; 45; 43; 47; 40; 41; 58; 33; 94; 38; 39; 126; 123; 125; 60; 62; 61; 32;   (* $-+/():!^&'~{}<>= space *)
    46; 44; 37].                                                                 (* . , % *)
 (* characters that may not occur inside a bracketed prefix *)
-Definition bracket_special (c : N) : bool := mem c [91; 93; 34; 92; 95; 59].  (* [ ] DQUOTE \ _ ; *)
+Definition bracket_special (c : N) : bool := mem c [91; 93; 34; 92; 95; 42; 59].  (* [ ] DQUOTE \ _ * ; *)
 Definition is_digit (c : N) : bool := (48 <=? c) && (c <=? 57).
 Definition is_hex (c : N) : bool :=
   is_digit c || ((65 <=? c) && (c <=? 70)) || ((97 <=? c) && (c <=? 102)).
@@ -449,44 +453,11 @@ Definition wf_tok (t : token) : bool :=
 Definition wf_section (s : section) : bool := forallb wf_tok s.
 Definition wf (a : ast) : bool := forallb wf_section a.
 
-(* ---- the classes on which the current scanner is known to deviate ---- *)
-(* escape state left by the text of a quoted literal: inside "…" the scanner still lets '\' and
-   '_' swallow the next character, so a pending escape swallows the closing quote *)
-Fixpoint esc_pending (e : bool) (s : list N) : bool :=
-  match s with
-  | [] => e
-  | c :: t => esc_pending (if e then false else is_esc c) t
-  end.
-
-(* characters that the scanner acts on outside quotes/escapes: a fill character `*c` with such a
-   c is read as if c stood alone *)
-Definition fill_significant (c : N) : bool :=
-  mem c [34; 92; 95; 91; 93; 59; 47;
+(* characters the scanner acts on outside quotes, escapes and brackets; every other character
+   leaves a boundary state unchanged (proof vocabulary, also used by the test driver) *)
+Definition significant (c : N) : bool :=
+  mem c [34; 92; 95; 42; 91; 93; 59; 47;
          97; 112; 100; 109; 104; 121; 115; 65; 80; 68; 77; 72; 89; 83].
-
-(* [g] = a General token has been passed (the scanner's `ap` flag is then stuck at true) *)
-Fixpoint known_section (g : bool) (s : section) : option N :=
-  match s with
-  | [] => None
-  | t :: r =>
-    match t with
-    | TQuoted txt => if esc_pending false txt then Some 1 else known_section g r
-    | TFill c => if fill_significant c then Some 2 else known_section g r
-    | TGeneral _ => known_section true r
-    | TLit c => if g && (c =? 47) then Some 3 else known_section g r
-    | TDate l _ _ => if g then match l with LM => None | _ => Some 3 end else None
-    | TAmPm _ | TAP _ | TElapsed _ _ _ => None
-    | _ => known_section g r
-    end
-  end.
-
-(* class id: 1 = escape inside a quoted literal (F23); 2 = significant fill character;
-   3 = d/h/y/s token or bare '/' after General in the same section *)
-Definition known_C10 (a : ast) : option N :=
-  match a with
-  | [] => None
-  | s :: _ => known_section false s
-  end.
 
 (* ---- the ECMA-376 list of built-in date/time format ids (18.8.30), written by hand ---- *)
 Definition ecma_builtin (id : N) : cell_format :=
@@ -527,62 +498,9 @@ Definition spec_cell (k : cell_format) (is_1904 : bool) (v : num) : data :=
   | Other => match v with NF b => DFloat b | NI z => DInt z end
   end.
 
-(* XML attribute-value escaping, as every xlsx writer applies it to formatCode: & < DQUOTE > *)
-Definition xml_special (c : N) : bool := mem c [38; 60; 34; 62].
-Definition xml_escape_char (c : N) : list N :=
-  if c =? 38 then [38; 97; 109; 112; 59]                 (* &amp; *)
-  else if c =? 60 then [38; 108; 116; 59]                (* &lt; *)
-  else if c =? 34 then [38; 113; 117; 111; 116; 59]      (* &quot; *)
-  else if c =? 62 then [38; 103; 116; 59]                (* &gt; *)
-  else [c].
-Definition xml_escape (s : list N) : list N := flat_map xml_escape_char s.
-
-(* encoders of the logical table into what each reader sees.  Xlsx::read_styles takes the raw
-   attribute text of formatCode (it decodes the charset but does not unescape entities), so the
-   xlsx model receives the escaped text. *)
+(* encoders of the logical table into what each reader sees (ids of xlsx as decimal text) *)
 Definition enc_xlsx (t : style_table) : xlsx_styles :=
-  mkXlsxStyles (map (fun e => (decimal (fst e), xml_escape (snd e))) (customs t))
+  mkXlsxStyles (map (fun e => (decimal (fst e), snd e)) (customs t))
                (map (option_map decimal) (xfs t)).
-
-(* longest prefix without an XML-special character, and the rest *)
-Fixpoint split_at_special (s : list N) : list N * list N :=
-  match s with
-  | [] => ([], [])
-  | c :: t => if xml_special c then ([], s)
-              else let '(a, b) := split_at_special t in (c :: a, b)
-  end.
-
-(* class 6 (xlsx only): the format code contains a character that XML escapes and the scanner has
-   not yet decided when it reaches it; it then reads the entity text (`&quot;` ends in ';') *)
-Definition known_xlsx_code (s : list N) : option N :=
-  let '(pre, post) := split_at_special s in
-  match post, run init pre with
-  | _ :: _, Continue _ => Some 6
-  | _, _ => None
-  end.
-Definition known_xlsx_fmt (t : style_table) (fmt : option N) : option N :=
-  match fmt with
-  | None => None
-  | Some id => match assoc_last N.eqb id (customs t) with
-               | Some s => known_xlsx_code s
-               | None => None
-               end
-  end.
 Definition enc_biff (t : style_table) : biff_styles :=
   mkBiffStyles (customs t) (map (fun o => match o with Some i => i | None => 0 end) (xfs t)).
-
-(* plumbing classes: 4 = xlsx cell without `s` attribute while cell XF 0 is a date format;
-   5 = xls FORMULA record with a numeric cached value under a date style *)
-Definition known_xlsx_cell (formats : list cell_format) (s_attr : option N) : option N :=
-  match s_attr with
-  | Some _ => None
-  | None => match nth_error formats 0 with
-            | Some Other | None => None
-            | Some _ => Some 4
-            end
-  end.
-Definition known_xls_formula (formats : list cell_format) (ixfe : N) : option N :=
-  match nth_error formats (N.to_nat ixfe) with
-  | Some Other | None => None
-  | Some _ => Some 5
-  end.
